@@ -20,7 +20,7 @@
      png_write_succeeds_default the hypotheses are satisfiable (default colours, any 0/1 matrix)
    Pixels are compared after [norm_px]: a fully transparent pixel (alpha 0) is compared without its RGB part. *)
 From Coq Require Import ZArith List Bool Lia.
-From Segno Require Import Base.PyLite Ref.IsoData Ref.Pixel Model.Iter Model.Color Model.Png Ref.PngReader Lemmas.IterLemmas.
+From Segno Require Import Base.PyLite Base.PyCase Ref.IsoData Ref.Pixel Model.Iter Model.Color Model.Png Ref.PngReader Lemmas.IterLemmas.
 Import ListNotations.
 Open Scope Z_scope.
 
@@ -2391,7 +2391,7 @@ Qed.
 Lemma color_to_rgba_err c e : color_to_rgba c false = Err e -> e = ValueError.
 Proof.
   unfold color_to_rgba. destruct c as [s|parts].
-  - destruct (assoc_str (lower s) NAME2RGB) as [[[r g] b]|]; [discriminate|].
+  - destruct (assoc_str (py_lower s) NAME2RGB) as [[[r g] b]|]; [discriminate|].
     destruct (hex_to_rgb_or_rgba s false) as [l|e1] eqn:E1.
     + destruct l as [|r [|g [|b [|a l]]]]; discriminate.
     + apply hex_err in E1. subst e1. intros H. injection H as <-. reflexivity.
